@@ -171,6 +171,24 @@ Proof.
       (eapply Inv_ext; [|exact I]; intros p; apply net_read; assumption).
 Qed.
 
+Lemma net_retry : forall n s t, lookup s (lockp t) = None ->
+  forall q, lookup (run s (repeat_ops n (rlock_retry t))) q = lookup s q.
+Proof.
+  induction n as [|n IH]; intros s t Hl q; [reflexivity|].
+  change (repeat_ops (S n) (rlock_retry t)) with (rlock_retry t ++ repeat_ops n (rlock_retry t)). rewrite run_app.
+  assert (E : forall x, lookup (run s (rlock_retry t)) x = lookup s x).
+  { intros x. unfold rlock_retry. stp. rewrite Hl. stp.
+    destruct (path_eq_dec x (lockp t)) as [Ex|Ex]; [subst x; fsn; symmetry; exact Hl | fsn; reflexivity]. }
+  rewrite IH by (rewrite E; exact Hl). apply E.
+Qed.
+
+Lemma retry_read_inv : forall s0 s t n, InvP s0 s -> InvP s0 (fst (exec_retry_read s t n)).
+Proof.
+  intros s0 s t n I. unfold exec_retry_read. destruct (exists_b (p_fs s) (lockp t)) eqn:El; [exact I|].
+  apply exists_b_false in El. unfold InvP. cbn [fst emit p_fs p_cont p_done]. eapply Inv_ext; [|exact I].
+  intros p. apply net_retry. exact El.
+Qed.
+
 Lemma mark_same : forall nb h, h_tbl (mark nb h) = h_tbl h /\ refs (mark nb h) = refs h /\ (full h -> full (mark nb h)).
 Proof. intros [b|] h; simpl; auto. Qed.
 
@@ -661,17 +679,6 @@ Proof.
     + right. apply (committed_ext done s); [apply Hf; exact Hp | exact R].
 Qed.
 
-Lemma firstn_blocks_In : forall j blocks o, In o (firstn_blocks j blocks) -> exists b, In b blocks /\ In o b.
-Proof.
-  intros j blocks. revert j. induction blocks as [|b r IH]; intros j o H; [destruct j; contradiction|].
-  destruct j as [|j]; simpl in H.
-  - exists b. split; [left; reflexivity|]. destruct b as [|x b]; simpl in H; [contradiction|].
-    destruct H as [H|[]]. subst. left. reflexivity.
-  - apply in_app_or in H. destruct H as [H|H].
-    + exists b. split; [left; reflexivity | exact H].
-    + destruct (IH j o H) as [b' [Hb' Ho]]. exists b'. split; [right; exact Hb' | exact Ho].
-Qed.
-
 Lemma created_handler : forall s0 s c done t, Inv s0 s c done -> In t (created_tbls c) ->
   exists h, In h c /\ h_create h = true /\ h_tbl h = t /\ refs h = [data t; lockp t].
 Proof.
@@ -737,10 +744,10 @@ Proof.
   set (crl := sort_by oc (created_tbls c)). set (upl := sort_by ou (updated_tbls c)). set (idl := sort_by oi (idle_tbls c)).
   set (cr := changes c crl). set (up := changes c upl).
   unfold InvP in I. fold c in I.
-  destruct (match f with Some j => Nat.ltb j (length (map (write_created lb) cr ++ map (write_updated lb) up)) | None => false end).
-  - (* cancelled inside an EncodeView *)
+  destruct (match f with Some k => Nat.ltb k (length (concat (map (write_created lb) cr ++ map (write_updated lb) up))) | None => false end).
+  - (* the writing phase fails after some of its calls *)
     unfold InvP. cbn [fst emit p_fs p_cont p_done]. fold c. apply content_inv; [exact I|].
-    intros o Ho. apply firstn_blocks_In in Ho. destruct Ho as [b [Hb Ho]].
+    intros o Ho. apply firstn_In in Ho. apply in_concat in Ho. destruct Ho as [b [Hb Ho]].
     apply in_app_or in Hb. destruct Hb as [Hb|Hb]; apply in_map_iff in Hb; destruct Hb as [u [E Hu]]; subst b.
     + split; [apply (encode_ops_content _ _ _ _ Ho)|].
       unfold write_created in Ho. apply encode_ops_spec in Ho. destruct Ho as [_ [_ Ep]]. rewrite Ep.
@@ -843,6 +850,7 @@ Proof.
   - apply read_inv; assumption.
   - apply update_inv; assumption.
   - apply create_inv; assumption.
+  - apply retry_read_inv; assumption.
   - apply commit_inv; assumption.
   - apply release_inv; assumption.
   - exact I.
@@ -937,6 +945,22 @@ Proof.
   destruct (G true) as [A [B [C D]]]. repeat split; assumption.
 Qed.
 
+Lemma retry_ops_no_data : forall n t, forallb (fun o => negb (mutates_data o)) (repeat_ops n (rlock_retry t)) = true.
+Proof.
+  induction n as [|n IH]; intros t; [reflexivity|].
+  change (repeat_ops (S n) (rlock_retry t)) with (rlock_retry t ++ repeat_ops n (rlock_retry t)).
+  rewrite forallb_app, IH. reflexivity.
+Qed.
+
+Lemma retry_read_ro : forall s0 s t n, ro_state s0 s -> ro_state s0 (fst (exec_retry_read s t n)).
+Proof.
+  intros s0 s t n [Hc [Hd [He Ht]]]. unfold exec_retry_read.
+  destruct (exists_b (p_fs s) (lockp t)) eqn:El; [repeat split; assumption|].
+  apply exists_b_false in El. unfold ro_state. cbn [fst emit p_fs p_cont p_done p_tr]. repeat split; try assumption.
+  - intros p. rewrite net_retry by exact El. apply He.
+  - rewrite forallb_app, Ht. apply retry_ops_no_data.
+Qed.
+
 Lemma sort_by_nil : forall ord, sort_by ord [] = [].
 Proof.
   intros ord. unfold sort_by. simpl. rewrite app_nil_r. induction (dedupe ord) as [|x l IH]; [reflexivity|]. exact IH.
@@ -969,6 +993,8 @@ Proof.
   destruct a; try discriminate Ha; simpl.
   - pose proof (read_ro s0 s t f Hf R) as R'. destruct (exec_read s t f) as [s' ok]. simpl in R'.
     destruct ok; [apply IH; assumption | exact R'].
+  - pose proof (retry_read_ro s0 s t n R) as R'. unfold exec_retry_read in *.
+    destruct (exists_b (p_fs s) (lockp t)); simpl in *; apply IH; assumption.
   - exact R.
   - exact R.
 Qed.
